@@ -111,8 +111,10 @@ def session_script(r, conformant, force_lower=False, burst=False):
 
     def one_session(retransmit=False, last=False):
         add(gens.ENQ)
-        for _ in range(r.choice([1, 1, 2, 3])):
+        for mi in range(r.choice([1, 1, 2, 3])):
             text = C03.json_conformant_text(r) if conformant else None
+            if conformant and mi == 0 and r.random() < 0.5:
+                text = hub_message(r)[0]       # an instrument (or unknown model) behind a shared middleware name
             frames, _ = gens.message_frames(r, seq=r.randrange(8), text=text, parts=r.choice([1, 1, 2, 3]))
             if force_lower:
                 frames = [lower_cs(f) for f in frames]
@@ -196,6 +198,40 @@ def declarative_files(fmt, all_events, problems=None):
     return out
 
 
+def json_files_follow_their_schemas(files):
+    """every archived json document lists the records of its own frames under the schemas of the model its header names
+    (independent of the Wrapper's schema selection): returns None or a reason"""
+    from harness.props import C11, C17
+    from harness import schemaio
+    con = schemaio.contract()
+    specs_by_mod = {m["module"]: {rec["letter"]: rec for rec in m["records"]} for m in con["modules"]}
+    for f in files:
+        try:
+            doc = json.loads(f.decode("utf-8"))
+            frames = [x.encode("latin-1") for x in doc["metadata"]["astm"].split("\n")]
+        except Exception:
+            return "an archived file is not a json document with metadata.astm"
+        module = C17.expected_module(frames[0].decode("latin-1"))
+        if module is None:
+            continue
+        mapping = {l: schemaio.real_class(module, l) for l in specs_by_mod[module]}
+        bad = C11.declarative_check(frames, doc, mapping)
+        if bad:
+            return "a session of a %s analyser is archived with other schemas than its own: %s" % (module, bad[1])
+    return None
+
+
+def hub_message(r):
+    """(text of a message whose header names an instrument model behind a shared sender name, module)"""
+    from harness.props import C17
+    toks = C17.tokens()
+    head = None
+    while head is None:
+        module = r.choice(sorted(toks) + ["generic", "generic"])
+        head = C17.hub_header(module, None if module == "generic" else r.choice(toks[module]["tokens"]))
+    return (head + "\rL|1|N").encode("latin-1"), module
+
+
 def same_multiset(files, expected):
     files = list(files)
     for kind, content in expected:
@@ -267,10 +303,91 @@ def one_run(r, fmt, ctx, stream, burst=False):
                     "renderings of the completed sessions" % (len(files), len(exp_decl),
                                                               "are not" if len(files) == len(exp_decl) else "cannot be"),
                     "server-runs/%s" % ("file-count" if len(files) != len(exp_decl) else "content"))
+    if fmt in ("json", None):
+        why = json_files_follow_their_schemas(files)
+        if why:
+            stream.fail(case, why, "server-runs/schemas")
     exp_model = expected_files(fmt, [sc[1] for sc in scripts], ctx)
     if exp_model is not None and not same_multiset(files, exp_model):
         stream.disagree(case, "directory: %d files" % len(files), "model: %d files" % len(exp_model))
     shutil.rmtree(tmp, ignore_errors=True)
+
+
+def inprocess_run(r, fmt, stream, burst, n_clients=None, timeouts=False):
+    """server.main() in-process (harness/servermain.py): its queue, consumer task, dispatch closure, protocol factory and
+    to_thread archive tasks run for real on asyncio's loop with a virtual clock; connections are played against the
+    factory at scripted instants.  burst: all final EOTs are delivered at the same instant (one loop iteration)."""
+    from harness import servermain
+    tmp = tempfile.mkdtemp(prefix="astm-c14i-")
+    outdir = os.path.join(tmp, "out")
+    os.makedirs(outdir)
+    n = n_clients or r.choice([2, 3, 5, 8])
+    conformant = fmt in ("json", None)
+    scripts = [session_script(r, conformant, force_lower=False, burst=False) for _ in range(n)]
+    scenario = []
+    all_events = []
+    t_burst = 0
+    plans = []
+    for c, (script, events, kinds) in enumerate(scripts):
+        t = r.randrange(0, 4)
+        plan = [(t, c, ("open",))]
+        for ev in events:
+            t += r.choice([1, 1, 1, 2, 5])      # (handles with equal deadlines run in no particular order)
+            plan.append((t, c, ("data", ev[1]) if ev[0] == "d" else ("lost",)))
+        if timeouts and r.random() < 0.3:
+            # the instrument falls silent in the middle of a further transfer and is closed by the inactivity timeout;
+            # later another instrument connects (a server that recycles objects would hand it a used one)
+            if plan[-1][2] == ("lost",):
+                plan = plan[:-1]
+                events = events[:-1]
+            t += 1
+            plan.append((t, c, ("data", gens.ENQ)))
+            events = list(events) + [("d", gens.ENQ), ("T",)]
+            t += 40
+        plans.append(plan)
+        all_events.append(list(events))
+        t_burst = max(t_burst, t)
+    if burst:
+        # shift every connection as a whole so that its last EOT falls on one common instant (the pauses inside a
+        # connection stay as they are, below the inactivity timeout)
+        for k_, plan in enumerate(plans):
+            idx = [i for i, st in enumerate(plan) if st[2][0] == "data" and st[2][1][:1] == b"\x04"]
+            if idx:
+                off = t_burst + 1 - plan[idx[-1]][0]
+                plans[k_] = [(t + off, c, a_) for t, c, a_ in plan]
+    for plan in plans:
+        scenario += plan
+    scenario.sort(key=lambda x: x[0])
+    args = ["-o", outdir] + (["-m", fmt] if fmt is not None else [])
+    res = servermain.run_server_main(args, scenario, settle=2)
+    files = []
+    for fn in sorted(os.listdir(outdir)):
+        with open(os.path.join(outdir, fn), "rb") as fh:
+            files.append(fh.read())
+    problems = []
+    exp_decl = declarative_files(fmt, all_events, problems)
+    case = {"format": fmt, "in_process": True, "burst": burst, "scenario": [[t, c, a[0], a[1].hex() if len(a) > 1 else ""] for t, c, a in scenario],
+            "kinds": [sc[2] for sc in scripts], "files": len(files)}
+    stream.case(case, nontrivial=n >= 2)
+    stream.count("format=%s" % fmt)
+    if burst:
+        stream.count("same-instant-eot")
+    if res["exit"] not in (None, 0):
+        stream.fail(case, "server.main() exited with %r" % (res["exit"],), "in-process/exit")
+    if problems:
+        stream.fail(case, problems[0], "in-process/not-rendered")
+    if not same_multiset(files, exp_decl):
+        stream.fail(dict(case, expected_files=len(exp_decl), found=[f[:60].hex() for f in files[:6]]),
+                    "the output directory holds %d files, %d completed sessions were acknowledged; contents %s the "
+                    "renderings of the completed sessions" % (len(files), len(exp_decl),
+                                                              "are not" if len(files) == len(exp_decl) else "cannot be"),
+                    "in-process/%s" % ("file-count" if len(files) != len(exp_decl) else "content"))
+    if fmt in ("json", None):
+        why = json_files_follow_their_schemas(files)
+        if why:
+            stream.fail(case, why, "in-process/schemas")
+    shutil.rmtree(tmp, ignore_errors=True)
+    return res
 
 
 def run(ctx):
@@ -285,7 +402,10 @@ def run(ctx):
     # many instruments finishing at the same moment: all EOTs are sent when every client has reached its EOT
     for fmt in (["json", "astm", "json", "lis2a"] if ctx.thorough else ["json"]):
         one_run(r, fmt, ctx, s, burst=True)
-    return [s]
+    ip = Stream("server-main-in-process")
+    for i in range(400 if ctx.thorough else 60):
+        inprocess_run(r, r.choice(["astm", "lis2a", "json", "json", None]), ip, burst=(i % 3 == 0), timeouts=(i % 4 == 1))
+    return [s, ip]
 
 
 def search(ctx, disagreements):
